@@ -54,6 +54,31 @@ def check(R):
             bad = [p for p in posts if p.bb in r]
             R.expect('P2', clo.fn, 'existing session: post_recv only after Session::decode_remaining ok', not bad,
                      'cut by the decode success edge', f'post_recv at {[clo.where(p.bb) for p in bad]} reachable without decode', clo.where(frm))
+        # a frame that fails to decode / authenticate is rejected WITHOUT changing anything: from the failure edge of every decoder no call
+        # that takes the session table or a session by `&mut` (remove, add, post_recv, expire ..) is reachable before the closure returns
+        def mutators_after(start_edges):
+            r = set()
+            for (frm, to) in start_edges:
+                r |= prims.reach(clo, (to,))
+            bad_ = []
+            for i in sorted(r):
+                t_ = clo.bbs[i]['t']
+                if t_['t'] != 'call' or clo.is_cleanup(i):
+                    continue
+                cal = t_.get('r') or t_.get('f', '')
+                cb = F.bodies.get(cal)
+                if cal.startswith(('transport::session::Sessions::', 'transport::session::Session::')) and cb is not None and cb.argc >= 1 \
+                        and cb.local_ty(1).startswith(('&mut transport::session::Sessions', '&mut transport::session::Session')) \
+                        and not cal.endswith(('::get_for_rx', '::get', '::update_last_used')):
+                    bad_.append(f'{cal.split("::")[-1]} at {clo.where(i)}')
+                if cal.endswith('::notify_session_removed'):
+                    bad_.append(f'notify_session_removed at {clo.where(i)}')
+            return bad_
+        for d in decoders:
+            for t in clo.calls(d):
+                fe_ = prims.track_result(F, clo, t).failure
+                bad_ = mutators_after(fe_)
+                R.expect('P3', clo.fn, f'a frame refused by {d.split("::")[-1]} changes no session state', bool(fe_) and not bad_, 'error edge -> return', f'after the refusal: {bad_}', clo.where(t.bb))
         # no Session field write in the closure itself (mutation happens inside post_recv)
         fw = sorted({f for f in clo.fw_summary if f.endswith(':' + SESS)})
         R.expect('P1', clo.fn, 'decode_packet does not write Session fields directly', not fw, 'no direct Session field write', f'writes {fw}')
